@@ -17,6 +17,8 @@ open GraphSlam GraphSlam.Gen
 open Filter Topology
 set_option maxHeartbeats 4000000
 set_option linter.unusedSimpArgs false
+set_option linter.unusedTactic false
+set_option linter.unreachableTactic false
 
 /-- squared norm of the vector part of the increment -/
 def vnorm2 (δ : Fin 6 → ℝ) : ℝ := δ 3 * δ 3 + δ 4 * δ 4 + δ 5 * δ 5
@@ -44,7 +46,8 @@ theorem PoseSE3_boxplus_eq_add_lift (p : Fin 7 → ℝ) (δ : Fin 6 → ℝ) (h 
   funext i
   fin_cases i <;>
     simp only [PoseSE3.boxplus, PoseSE3.add, lift, vnorm2, real_sqrt, real_gt, real_ofInt, hs, hsq, if_false,
-      Fin.isValue, Fin.zero_eta, Fin.mk_one, Fin.reduceFinMk, Int.cast_one, Int.cast_zero, Int.cast_ofNat]
+      Fin.isValue, Fin.zero_eta, Fin.mk_one, Fin.reduceFinMk, Int.cast_one, Int.cast_zero, Int.cast_ofNat] <;>
+    (try ring)
 
 /-- documented fallback (se3.py:182-183): for `‖δ_v‖ > 1` the rotation increment is dropped -/
 theorem PoseSE3_boxplus_big (p : Fin 7 → ℝ) (δ : Fin 6 → ℝ) (h : 1 < vnorm2 δ) :
@@ -56,7 +59,8 @@ theorem PoseSE3_boxplus_big (p : Fin 7 → ℝ) (δ : Fin 6 → ℝ) (h : 1 < vn
   funext i
   fin_cases i <;>
     simp only [PoseSE3.boxplus, PoseSE3.add, real_sqrt, real_gt, real_ofInt, hs, if_true,
-      Fin.isValue, Fin.zero_eta, Fin.mk_one, Fin.reduceFinMk, Int.cast_one, Int.cast_zero, Int.cast_ofNat]
+      Fin.isValue, Fin.zero_eta, Fin.mk_one, Fin.reduceFinMk, Int.cast_one, Int.cast_zero, Int.cast_ofNat] <;>
+    (try ring)
 
 /-- `vnorm2` as an expression, to reuse the verified differentiator -/
 def vnorm2E : Expr 0 6 :=
